@@ -19,8 +19,21 @@ unit "d6" contains three such cases in both tiers (one literal: 3x3 mask, one un
 they fire `iterate.rule` with all_centre_values_zero / result_all_zero / reference_all_zero so that only this
 mechanism is classified; every other disagreement of `iterate.rule` stays a violation.
 
-Validated against (tools/mutant.py; suite = repository suite stays green, Q = caught by quick tier):
-  see the list at the end of this docstring block `VALIDATED` below.
+VALIDATED against deliberate breaks on scratch worktrees (tools/mutant.py; every one was caught by the QUICK tier;
+"suite green" = the repository's 699 baseline tests still pass, i.e. only this check notices):
+  suite green, caught:
+   * x-major ordering inside a pixel for sub-sizes > 4 only (grid_2d_slim_over_sampled_via_mask_from)   -> grid.formula
+   * binned_array_2d_from uses sub_fraction[min(index, 30)] (wrong pixel's fraction beyond 31 pixels)   -> binned.mean
+   * threshold ratio not inverted unless > 2 (ratio taken larger/smaller: a value that halves "agrees") -> iterate.rule
+   * absolute tolerance ignored whenever a fractional accuracy is set                                   -> iterate.rule
+   * absolute tolerance compared with the signed difference (only increasing refinements notice)        -> iterate.rule
+   * previous level never advanced (every level compared with the pixel-centre values)                  -> iterate.rule
+   * all-zero shortcut widened to "some centre value is zero" (must NOT be excused as D6)               -> iterate.rule
+   * decorator treats every per-pixel Array2D sub-size map as sub-size 1 (plain evaluation)             -> decorator.sub.*
+  killed by the suite as well, caught here too:
+   * x-major ordering for every sub-size; sub_fraction[index - 1]; ratio never inverted; x sub-step taken from the
+     y pixel scale (anisotropic scales only); first schedule entry skipped (sub_steps[1:])
+  With "known": [] the D6 cases print VIOLATION (monitor iterate.rule); with the entry they print the one KNOWN-FINDING line.
 """
 import numpy as np
 
@@ -37,9 +50,9 @@ RULE = ("a case = (mask, anisotropic pixel scales, origin) + either a sub-size m
         "(kind, mask bits, scales, origin, sub map | function parameters, thresholds, schedule); non-trivial = some "
         "sub-size > 1 (uniform/adaptive cases) resp. the reference result differs from the pixel-centre values in "
         "at least one pixel (iterate cases)")
-BOUNDS = {"quick": "masks up to 7x8; 288 uniform-map cases, 144 adaptive-scheme cases, 384 iterate cases "
+BOUNDS = {"quick": "masks up to 7x8; 1440 uniform-map cases, 720 adaptive-scheme cases, 1920 iterate cases "
                    "(schedules [2,4] [2,4,8] [3,5] [4]; accuracies 0.5/0.99/0.9999; tolerances None/1e-3/1e-1), 3 D6 cases",
-          "thorough": "masks up to 7x8; 4000 uniform-map cases, 2000 adaptive-scheme cases, 6000 iterate cases "
+          "thorough": "masks up to 7x8; 75000 uniform-map cases, 37500 adaptive-scheme cases, 112500 iterate cases "
                       "(additionally schedule [2,4,8,16]), 3 D6 cases"}
 EXHAUSTIVE = {"quick": False, "thorough": False}
 ASSUMPTIONS = [
@@ -55,6 +68,11 @@ ASSUMPTIONS = [
     "the adaptive sub-size *choice* is not part of the statement: the oracle reads the map from the grid the probe received",
 ]
 QUICK_JOBS = 8
+# A float-typed per-pixel map (what OverSamplingUniform.from_radial_bins / from_adaptive_scheme build) makes
+# slim_for_sub_slim / sub_pixel_areas / sub_mask_native_for_sub_mask_slim raise TypeError on the current tree. Reported to
+# the lead as a candidate finding; it is only *counted* (skipped_or_dont_care) until it is either repaired or listed in
+# known_findings.json with a classifier - then set this to True and the monitor `index.float_typed_map` decides it.
+JUDGE_FLOAT_TYPED_MAPS = False
 MIN_MONITORS = {"*": {"grid.formula": 20, "grid.count": 20, "index.slim_for_sub_slim": 20, "areas.each": 20,
                       "areas.sum": 20, "binned.mean": 20, "binned.affine": 20, "binned.constant": 20,
                       "sampler.array_via_func": 20, "decorator.plain.one_call_with_centres": 5,
@@ -71,8 +89,8 @@ TIE = 1e-9
 
 
 def plan(tier, seed):
-    nu, na, ni = (288, 144, 384) if tier == "quick" else (4000, 2000, 6000)
-    cu, ca, ci = (24, 24, 24) if tier == "quick" else (100, 100, 100)
+    nu, na, ni = (1440, 720, 1920) if tier == "quick" else (75000, 37500, 112500)
+    cu, ca, ci = (48, 48, 48) if tier == "quick" else (250, 250, 250)
     units = [{"kind": "d6", "w": 5}]
     for s in range(0, nu, cu):
         units.append({"kind": "uniform", "start": s, "stop": min(nu, s + cu), "w": (min(nu, s + cu) - s) * 1.0})
@@ -305,7 +323,10 @@ def teardown(ctx):
 
 # ------------------------------------------------------------------------------ helpers
 def geometry(r, max_h=7, max_w=8, family=None):
-    H, W = int(r.integers(1, max_h + 1)), int(r.integers(1, max_w + 1))
+    if r.random() < 0.5:        # half of the cases on the larger frames (more pixels per mask, more mixed stopping levels)
+        H, W = int(r.integers(4, max_h + 1)), int(r.integers(4, max_w + 1))
+    else:
+        H, W = int(r.integers(1, max_h + 1)), int(r.integers(1, max_w + 1))
     m, fam = gen.random_mask(r, H, W, family)
     scales, origin = gen.scales_origin(r, aniso=True)
     return m, fam, scales, origin
@@ -414,6 +435,19 @@ def check_uniform(ctx, i):
         if ok:
             ctx.check(ctx.close(_np(b.slim), aff(cen), 1e-12, scale=cscale(aff(g))), "binned.affine",
                       coefficients=(a0, a1, a2), expected=aff(cen), got=lambda: _np(b), **W)
+    # --- observation only (not judged, see ASSUMPTIONS): the same map typed float, as from_radial_bins/from_adaptive_scheme build it
+    if skind == "per_pixel" and i % 12 == 2:
+        try:
+            o2 = aa.OverSamplerUniform(mask=mask, sub_size=aa.Array2D(values=sub.astype(float), mask=mask))
+            good = (np.array_equal(np.asarray(o2.slim_for_sub_slim), np.repeat(np.arange(n), sub ** 2))
+                    and abs(float(np.sum(o2.sub_pixel_areas)) - n * scales[0] * scales[1]) <= 1e-12 * n * scales[0] * scales[1])
+            outcome = "index_tables_and_areas_correct" if good else "index_tables_or_areas_wrong"
+        except Exception as e:
+            good, outcome = False, "slim_for_sub_slim/sub_pixel_areas_raise_" + type(e).__name__
+        if JUDGE_FLOAT_TYPED_MAPS:
+            ctx.check(good, "index.float_typed_map", outcome=outcome, sub_size_dtype="float64", **W)
+        else:
+            ctx.skipped["float_typed_sub_size_map:%s(observed, not judged)" % outcome] += 1
     # --- user function through the sampler and through the decorator (probe)
     f, fd = make_func(r, m, scales, origin)
     exp_f = ref_bin(f(exp_grid), sub)
